@@ -63,9 +63,10 @@ func zzC04NoPanic(ds []zzC04Decoder) {
 	d := ds[i]
 	buf := zzsym.BytesUpTo("buf", zzsym.Param("B_"+d.name))
 	if first := zzsym.Param("FIRST"); first >= 0 {
-		// input class "buffers whose first byte is FIRST" (e.g. 0xFF: a 9-byte count prefix), used where the
-		// fully arbitrary buffer of that size has too many paths
-		zzsym.Assume(len(buf) >= 1 && buf[0] == byte(first))
+		// input class "buffers whose byte at offset AT is FIRST" (e.g. 0xFF where a count starts: a 9-byte count
+		// prefix), used where the fully arbitrary buffer of that size has too many paths
+		at := zzsym.Param("AT")
+		zzsym.Assume(len(buf) > at && buf[at] == byte(first))
 	}
 	src := common.NewZeroCopySource(buf)
 	err := d.dec(src)
@@ -149,4 +150,12 @@ func ZZ_C04_NEO3_DecodeNoPanic_witness() {
 // StateValidatorListParam allocates make([]string, 0, n) with n read from the input: kept in a harness of its own.
 func ZZ_C04_NEO3_DecodeNoPanic_StateValidatorListParam() {
 	zzC04NoPanic([]zzC04Decoder{{"StateValidatorListParam", new(StateValidatorListParam).Deserialization}})
+}
+
+func ZZ_C04_NEO3_DecodeNoPanic_StateValidatorListParam_witness() {
+	buf := zzsym.BytesUpTo("buf", 24)
+	zzsym.Assume(len(buf) >= 1 && buf[0] == 0) // empty validator list: keeps the witness to a handful of paths
+	p := new(StateValidatorListParam)
+	err := p.Deserialization(common.NewZeroCopySource(buf))
+	zzsym.Assert(err != nil || p.Address[3] != 9, "witness: some buffer decodes to an empty list with an operator address")
 }
